@@ -157,6 +157,16 @@ pub fn apply_mf(kind: &str, vals: &[Vec<u8>]) -> Vec<u8> {
     match kind {
         "concat" => vals.concat(),
         "first" => vals.first().cloned().unwrap_or_default(),
+        // not associative on purpose: the number of values of the call, then every value framed by its length.
+        // Merging in several calls (pairwise folding, chunked merges) gives different bytes than one call.
+        "frame" => {
+            let mut out = (vals.len() as u32).to_le_bytes().to_vec();
+            for v in vals {
+                out.extend_from_slice(&(v.len() as u32).to_le_bytes());
+                out.extend_from_slice(v);
+            }
+            out
+        }
         "sum" => {
             let mut s: u32 = 0;
             for v in vals {
